@@ -12,8 +12,8 @@
    <= t, printf-style digits), the harness shows specification and glibc coincide. *)
 From Coq Require Import List ZArith Lia Bool Arith NArith.
 From Coq.Strings Require Import Byte.
-From Muduo Require Import Base_Bytes Gen_C20 Gen_C20Net C20_Model C20_NetModel C20_TzifModel
-  C20_Proofs C20_TzProofs C20_TextProofs C20_NetProofs C20_TzifProofs.
+From Muduo Require Import Base_Bytes Gen_C20 Gen_C20Net Gen_C20Tz Gen_C20Ts C20_Model C20_TzGen C20_TsGen C20_NetModel C20_TzifModel
+  C20_Proofs C20_TzProofs C20_TzLink C20_TextProofs C20_TsLink C20_NetProofs C20_TzifProofs.
 Import ListNotations.
 Local Open Scope Z_scope.
 
@@ -105,6 +105,24 @@ Theorem C20_lookup_is_last_le :
 Proof. exact (conj lookup_is_last_le wf_sorted). Qed.
 Print Assumptions C20_lookup_is_last_le.
 
+(* TimeZone::Data::findLocalTime, BOTH overloads, are not only modelled by hand: Gen_C20Tz holds the
+   decision trees obtained by symbolic execution of the C++ statements (iterators as indices,
+   `const LocalTime*` as record index, std::upper_bound as the libstdc++ loop on the column the
+   comparator reads), regenerated on every run.  For ALL tables and arguments they are the
+   hand-written find_utc / find_local the theorems of this section speak about; the extracted
+   model runs the generated ones.  Data::addTransition's shifted-local column is [tloc]. *)
+Theorem C20_findLocalTime_generated :
+  (forall tb t, findLocalTime_utc tb t = find_utc tb t) /\
+  (forall tb lt post, findLocalTime_local tb lt post = find_local tb (fromUtc lt) post) /\
+  (forall tb tr, addTransition_localtime tb (tutc tr) (tidx tr) = tloc tb tr) /\
+  (forall tb t, toLocalTime_g tb t = toLocalTime tb t) /\
+  (forall tb dt post, fromLocalTime_g tb dt post = fromLocalTime tb dt post).
+Proof.
+  exact (conj findLocalTime_utc_link (conj findLocalTime_local_link (conj addTransition_localtime_link
+          (conj toLocalTime_g_link fromLocalTime_g_link)))).
+Qed.
+Print Assumptions C20_findLocalTime_generated.
+
 (* toLocalTime / fromLocalTime on civil fields are the seconds-level functions whenever the
    local time falls in 1900..2500 *)
 Theorem C20_local_civil : forall tb t post, sorted_utc (trans tb) = true ->
@@ -183,6 +201,19 @@ Theorem C20_local_last_transition_defect : forall tb t, wf tb = true ->
 Proof. exact local_last_defect. Qed.
 Print Assumptions C20_local_last_transition_defect.
 
+(* the finding at the first transition, exactly: in EVERY well-formed table (a) every instant before
+   the first transition whose local time is repeated after it is answered with the later instant
+   for both flags, (b) every local time in the gap of the first transition is answered with record
+   0 for postTransition=true, never with the first transition's offset *)
+Theorem C20_local_first_transition_defect : forall tb, wf tb = true -> (1 <= nT tb)%nat ->
+  (forall t, let L := t + offset_at tb t in
+     seg tb t = 0%nat -> U tb 0 + O tb 0 <= L ->
+     forall post, fromLocalSeconds tb L post = t + (OB tb 0 - O tb 0) /\ t < t + (OB tb 0 - O tb 0)) /\
+  (forall L, U tb 0 + OB tb 0 <= L < U tb 0 + O tb 0 ->
+     fromLocalSeconds tb L true = L - OB tb 0 /\ L - OB tb 0 <> L - O tb 0).
+Proof. exact local_first_defect. Qed.
+Print Assumptions C20_local_first_transition_defect.
+
 Theorem C20_local_roundtrip_refuted :
   exists tb t, wf tb = true /\ forall post, fromLocalSeconds tb (t + offset_at tb t) post <> t.
 Proof. exact local_roundtrip_refuted. Qed.
@@ -219,6 +250,20 @@ Theorem C20_tzif_parse_shape : forall file tb, tzif_parse file = TzOk tb ->
   wf tb = (0 <? length (offs tb))%nat && wf_gaps tb (off_of tb 0) (trans tb).
 Proof. intros file tb H. exact (conj (tzif_parse_idx file tb H) (tzif_parse_wf file tb H)). Qed.
 Print Assumptions C20_tzif_parse_shape.
+
+(* the parts of the reader that are GENERATED (Gen_C20Tz: the rejection tests on the six counts,
+   which count bounds which loop / reserve / readBytes, the version-2 skip with its int
+   multiplications, magic and version literals, header field lengths, both skip constants, the
+   v1 flags) are consistent with each other for all count values: the addTransition loop runs over
+   exactly the entries the two reading loops filled, every reserve gets the bound of its loop *)
+Theorem C20_tzif_generated_plan : forall a b c d e f,
+  readDataBlock_nadd a b c d e f = readDataBlock_ntimes a b c d e f /\
+  readDataBlock_nidx a b c d e f = readDataBlock_ntimes a b c d e f /\
+  readDataBlock_reserve_times a b c d e f = readDataBlock_ntimes a b c d e f /\
+  readDataBlock_reserve_idx a b c d e f = readDataBlock_nidx a b c d e f /\
+  readDataBlock_reserve_types a b c d e f = readDataBlock_ntypes a b c d e f.
+Proof. exact reader_plan_consistent. Qed.
+Print Assumptions C20_tzif_generated_plan.
 
 (* ... and when that predicate computes to true on the parsed table, the lookup theorems apply
    to it: toLocalTime uses the last transition <= t, fromLocalTime inverts it as stated in
@@ -294,6 +339,59 @@ Theorem C20_timestamp_formatted_roundtrip : forall us,
   length (ts_toFormatted us true) = 24%nat /\ ts_parseFormatted (ts_toFormatted us true) = us.
 Proof. exact timestamp_formatted_len_roundtrip. Qed.
 Print Assumptions C20_timestamp_formatted_roundtrip.
+
+(* Timestamp::toString / toFormattedString assembled from the formats, argument expressions and
+   buffer sizes GENERATED from Timestamp.cc (snprintf interpreter C20_TsGen.printf_z; gmtime_r =
+   the generated BreakTime) are those specifications -- toString for EVERY int64 value (its
+   32-byte buffer never truncates), toFormattedString for non-negative timestamps dated
+   1900..2500 -- hence read back *)
+Theorem C20_timestamp_text_generated :
+  (forall us, ts_toString_g us = ts_toString us) /\
+  (forall us, 0 <= us < 10 ^ 26 -> ts_parse (ts_toString_g us) = Some us) /\
+  (forall us b, utc_first * 1000000 <= us < utc_end * 1000000 -> 0 <= us ->
+     ts_toFormatted_g us b = ts_toFormatted us b) /\
+  (forall us, utc_first * 1000000 <= us < utc_end * 1000000 -> 0 <= us ->
+     length (ts_toFormatted_g us true) = 24%nat /\ ts_parseFormatted (ts_toFormatted_g us true) = us).
+Proof.
+  split; [exact ts_toString_link|]. split.
+  - intros us H. rewrite ts_toString_link. exact (timestamp_text_roundtrip us H).
+  - split; [exact ts_toFormatted_link|].
+    intros us Hr H0. rewrite (ts_toFormatted_link us true Hr H0). exact (timestamp_formatted_len_roundtrip us Hr H0).
+Qed.
+Print Assumptions C20_timestamp_text_generated.
+
+(* Timestamp arithmetic GENERATED from Timestamp.h: fromUnixTime and secondsSinceEpoch /
+   microsecond remainder are inverse (C division: for every us one way, for t >= 0 the other), no
+   int64 overflow for |t| <= 9e12; addTime adds the int64 delta that timeDifference's int64
+   difference recovers (the double multiplication / division by the same generated constant
+   10^6 is the platform's and is compared with IEEE arithmetic by the harness) *)
+Theorem C20_timestamp_arith :
+  (forall us, Timestamp_fromUnixTime (Timestamp_secondsSinceEpoch us) (Z.rem us kMicroSecondsPerSecond) = us) /\
+  (forall t m, 0 <= t -> 0 <= m < 1000000 ->
+     Timestamp_secondsSinceEpoch (Timestamp_fromUnixTime t m) = t /\
+     Z.rem (Timestamp_fromUnixTime t m) kMicroSecondsPerSecond = m) /\
+  (forall t m, -9000000000000 <= t <= 9000000000000 -> -2147483648 <= m <= 2147483647 ->
+     Timestamp_fromUnixTime_fits t m = true) /\
+  (forall us d, Timestamp_timeDifference_diff (Timestamp_addTime us d) us = d) /\
+  (forall hi lo, Timestamp_addTime lo (Timestamp_timeDifference_diff hi lo) = hi) /\
+  Timestamp_timeDifference_divisor = 1000000 /\ Timestamp_addTime_factor = 1000000.
+Proof. exact timestamp_arith. Qed.
+Print Assumptions C20_timestamp_arith.
+
+(* Date::toIsoString (format, arguments and buffer size GENERATED from Date.cc, over the generated
+   getYearMonthDay): "YYYY-MM-DD" of the day's date for every day 1900-01-01..2500-12-31, and it
+   reads back *)
+Theorem C20_date_iso_roundtrip :
+  (forall j, jdn_first <= j <= jdn_last ->
+     exists y m d, getYearMonthDay j = (y, m, d) /\ valid_date y m d = true /\
+                   date_toIsoString_g j = date_iso y m d /\ date_iso_parse (date_toIsoString_g j) = (y, m, d)) /\
+  (forall y m d, valid_date y m d = true -> date_iso_parse (date_iso y m d) = (y, m, d)).
+Proof.
+  split; [|exact date_iso_roundtrip].
+  intros j Hj. destruct (date_toIsoString_link j Hj) as (y & m & d & Hg & Hv & He).
+  exists y, m, d. rewrite He. repeat split; auto. exact (date_iso_roundtrip y m d Hv).
+Qed.
+Print Assumptions C20_date_iso_roundtrip.
 
 (* big-endian encodings: all widths, all values (Base_Bytes, shared with C10/C18) *)
 Theorem C20_byte_order : forall n x,
@@ -371,8 +469,40 @@ Theorem C20_ipport_roundtrip : forall ntop6 sa p,
 Proof. exact ipport_roundtrip. Qed.
 Print Assumptions C20_ipport_roundtrip.
 
+(* InetAddress::toIp() / toIpPort() with their scratch arrays -- array sizes GENERATED from
+   InetAddress.cc, the size assertions of sockets::toIp and the '[' offset of sockets::toIpPort
+   GENERATED from SocketsOps.cc: no assertion fires and nothing is truncated, i.e. the strings are
+   those of the unbounded model above, for every address and port, provided inet_ntop(AF_INET6)
+   prints at most INET6_ADDRSTRLEN - 1 = 45 characters (platform contract; the IPv4 text is proved
+   <= 15).  In numbers: size >= longest text + 1. *)
+Theorem C20_inet_buffers :
+  (forall ntop6 sa p, (forall a, (length (ntop6 a) <= 45)%nat) ->
+     0 <= p < 65536 -> sa_port sa = port_store p ->
+     (sa_family sa = AF_INET \/ sa_family sa = AF_INET6) ->
+     (sa_family sa = AF_INET -> exists a b c d, sa_addr sa = [a; b; c; d]) ->
+     inet_toIp ntop6 sa = Some (toIp ntop6 sa) /\ inet_toIpPort ntop6 sa = Some (toIpPort ntop6 sa)) /\
+  (InetAddress_toIpPort_bufsize >= 1 + 45 + 2 + 5 + 1 /\ InetAddress_toIp_bufsize >= 45 + 1 /\
+   InetAddress_toIpPort_bufsize - SocketsOps_toIpPort_v6_off >= SocketsOps_toIp_need6 /\
+   InetAddress_toIp_bufsize >= SocketsOps_toIp_need6 /\ SocketsOps_toIp_need6 >= 45 + 1 /\ SocketsOps_toIp_need4 >= 15 + 1) /\
+  (forall a b c d, (length (ntop4 [a; b; c; d]) <= 15)%nat).
+Proof. exact (conj inet_buffers (conj inet_buffer_sizes ntop4_len)). Qed.
+Print Assumptions C20_inet_buffers.
+
+(* InetAddress::setScopeId (family test GENERATED): stored for IPv6 only, a no-op on IPv4, and
+   invisible to toIp / toIpPort / port() *)
+Theorem C20_inet_scope_id : forall ntop6 sa id,
+  toIp ntop6 (set_scope_id sa id) = toIp ntop6 sa /\ toIpPort ntop6 (set_scope_id sa id) = toIpPort ntop6 sa /\
+  inet_toIp ntop6 (set_scope_id sa id) = inet_toIp ntop6 sa /\ inet_toIpPort ntop6 (set_scope_id sa id) = inet_toIpPort ntop6 sa /\
+  inet_port (set_scope_id sa id) = inet_port sa /\
+  (sa_family sa = AF_INET -> set_scope_id sa id = sa) /\
+  (sa_family sa = AF_INET6 -> sa_scope (set_scope_id sa id) = id).
+Proof. exact scope_id_invisible. Qed.
+Print Assumptions C20_inet_scope_id.
+
 Example C20_text_nonvacuous :
-  ts_toString 1234567890123456 = [x31;x32;x33;x34;x35;x36;x37;x38;x39;x30;x2e;x31;x32;x33;x34;x35;x36] /\
+  ts_toString_g 1234567890123456 = [x31;x32;x33;x34;x35;x36;x37;x38;x39;x30;x2e;x31;x32;x33;x34;x35;x36] /\
+  date_toIsoString_g 2451604 = [x32;x30;x30;x30;x2d;x30;x32;x2d;x32;x39] /\
+  inet_toIpPort (fun _ => repeat x66 39) (inet_port_only 65535 true true) = Some ([x5b] ++ repeat x66 39 ++ [x5d;x3a;x36;x35;x35;x33;x35]) /\
   ntop4 [xff; x00; x0a; x09] = [x32;x35;x35;x2e;x30;x2e;x31;x30;x2e;x39] /\
   pton4 [x30;x31;x2e;x32;x2e;x33;x2e;x34] = None /\
   port_store 8080 = [x1f; x90] /\ sa_port (inet_port_only 8080 true false) = [x1f; x90] /\
